@@ -64,10 +64,10 @@ PROPS = {
                 filt=lambda k, o: not (k == 'R' and o in (ROOT_OPS | EQ_OPS | SSZ_OPS | SERDE_OPS | BUILDER_OPS)),
                 key=lambda ops: True),
     'C02': dict(fams=['crud', 'versions', 'rebase_pairs', 'intra', 'suffix', 'capacity', 'big', 'deep', 'hash_placement', 'fault', 'par'],
-                views=['obs'], oracles=['root'], pyref=False, filt=lambda k, o: k == 'R' and o in ROOT_OPS,
+                views=['obs'], oracles=['root'], pyref=True, filt=lambda k, o: k == 'R' and o in ROOT_OPS,
                 key=lambda ops: any(o.startswith('hash') for o in ops)),
     'C03': dict(fams=['hash_placement', 'rebase_pairs', 'intra', 'versions', 'crud', 'fault', 'par'], views=['obs'],
-                oracles=['memo', 'root'], pyref=False, filt=lambda k, o: k == 'R' and o in ROOT_OPS, twin='hash',
+                oracles=['memo', 'root'], pyref=True, filt=lambda k, o: k == 'R' and o in ROOT_OPS, twin='hash',
                 key=lambda ops: sum(o.startswith('hash') for o in ops) >= 2),
     'C04': dict(fams=['versions', 'rebase_pairs', 'hash_placement', 'intra'], views=['obs'], oracles=['isolation', 'memo'],
                 pyref=False, filt=lambda k, o: False,
@@ -76,7 +76,7 @@ PROPS = {
                 filt=lambda k, o: k == 'R' and o in CTOR_OPS,
                 key=lambda ops: True),
     'C06': dict(fams=['crud', 'versions', 'rebase_pairs', 'intra', 'suffix', 'capacity', 'codec', 'bulk'],
-                views=['obs', 'shape'], oracles=['canonical', 'eq'], pyref=False, filt=lambda k, o: k == 'R' and o in EQ_OPS,
+                views=['obs', 'shape'], oracles=['canonical', 'eq'], pyref=True, filt=lambda k, o: k == 'R' and o in EQ_OPS,
                 key=lambda ops: any(o.startswith('eq') for o in ops)),
     'C07': dict(fams=['rebase_pairs', 'versions'], views=['obs'], oracles=['unchanged', 'canonical', 'memo'], oops=REBASE_OPS, pyref=False,
                 filt=lambda k, o: o in REBASE_OPS, twin='rebase',
@@ -95,14 +95,14 @@ PROPS = {
     'C11': dict(fams=['suffix', 'crud'], views=['obs', 'shape'], vops=POP_OPS, oracles=['suffix', 'canonical'], oops=SUFFIX_OPS,
                 pyref=False, filt=lambda k, o: (k == 'R' and o in SUFFIX_OPS and o != 'level_iter') or (k == 'O' and o in POP_OPS),
                 key=lambda ops: any(o.split()[0] in SUFFIX_OPS for o in ops)),
-    'C12': dict(fams=['codec', 'crud', 'versions'], views=['obs'], oracles=['ssz'], pyref=False,
+    'C12': dict(fams=['codec', 'crud', 'versions'], views=['obs'], oracles=['ssz'], pyref=True,
                 filt=lambda k, o: k == 'R' and o in SSZ_OPS, key=lambda ops: any(o.split()[0] in SSZ_OPS for o in ops)),
-    'C13': dict(fams=['codec', 'crud'], views=['obs'], oracles=['serde'], pyref=False,
+    'C13': dict(fams=['codec', 'crud'], views=['obs'], oracles=['serde'], pyref=True,
                 filt=lambda k, o: k == 'R' and o in SERDE_OPS, key=lambda ops: any(o.split()[0] in SERDE_OPS for o in ops)),
     'C14': dict(fams=['crud', 'versions', 'bulk', 'suffix', 'codec'], views=['obs'], oracles=[], pyref=False,
                 filt=lambda k, o: False, key=lambda ops: True, lockstep=True),
     'C15': dict(fams=['invalid_args', 'bulk', 'capacity', 'deep', 'codec', 'builder', 'crud', 'versions'], views=['obs'],
-                oracles=['wellformed', 'error_preserves'], pyref=False, filt=lambda k, o: False,
+                oracles=['wellformed', 'error_preserves'], pyref=True, errors_only=True, filt=lambda k, o: k == 'R',
                 key=lambda ops: True),
     'C16': dict(fams=['par', 'fault'], views=['obs'], oracles=['par'], pyref=True, par_only=True, twin='fault',
                 filt=lambda k, o: k == 'R' and o in ('par_hash', 'par_mix'),
@@ -422,6 +422,11 @@ def pyref_findings(prop, text, trace):
             continue
         ln = m.predicted or m.actual or ''
         opname = m.op_text.split()[0] if m.op_text else ''
+        if spec.get('errors_only'):
+            # C15: whether, and with which error, a call is rejected (values of successful calls are C01's business)
+            pa = [(x or '').split(' ', 2)[2] if (x or '').startswith('R ') else '' for x in (m.predicted, m.actual)]
+            if not any(x.startswith('err:') and x not in ('err:pending', 'err:badreg') for x in pa) or '?' in pa[0]:
+                continue
         if filt(classify(ln), opname):
             out.append(oracles.Finding(m.op, 'after `%s`: expected `%s`, got `%s`' % (m.op_text, (m.predicted or '')[:200], (m.actual or '')[:200])))
             break
@@ -471,6 +476,8 @@ def correspondence(prop, text, it, mt):
                 regs = [x for x in optoks[1:] if len(x) == 2 and x[0] == 'h' and x[1].isdigit()]
                 if any(state.get(('O', r)) is False for r in regs):
                     return False
+            if spec.get('errors_only'):
+                return a[0] == 'R' and any((' err:' in x and not x.endswith(('err:pending', 'err:badreg'))) or x.endswith(' panic') for x in (a, b))
             return filt(classify(a if a != '<missing>' else b), opname)
         return view in spec['views'] and (vops is None or opname in vops)
 
